@@ -16,6 +16,18 @@ enum E { E_NEG = -2147483647 - 1, E_POS = 2147483647 };
 #define P(id, e) printf("%d v %lu %d %d\\n", id, (unsigned long)(e), (int)sizeof(e), (int)((__typeof__(e))-1 < 0))
 #define O(id, e) printf("%d o %lu\\n", id, (unsigned long)(e))
 """
+# pointer family: a reserved (never touched) address range stands for the array; PP prints the byte offset
+# of a pointer from the array start and sizeof the pointer expression
+PTR_PRELUDE = """void *mmap(void *, unsigned long, int, int, int, long);
+static char *B;
+struct S12 { int a[3]; };
+struct S24 { long a[3]; };
+#define PP(id, e) printf("%d v %lu %d %d\\n", id, (unsigned long)((char *)(e) - B), (int)sizeof(e), 0)
+"""
+PTR_INIT = """B = mmap(0, 24UL * 4294967296UL + 8192, 0, 0x22 | 0x4000, -1, 0);   /* PROT_NONE, MAP_PRIVATE|MAP_ANONYMOUS|MAP_NORESERVE */
+if (B == (char *)-1) { printf("NOMEM\\n"); return 3; }
+"""
+ELEM = {1: "char", 2: "short", 4: "int", 8: "long", 12: "struct S12", 24: "struct S24"}
 M64 = (1 << 64) - 1
 
 
@@ -88,6 +100,8 @@ def const_text(e):
 
 
 def describe(v):
+    if v["f"] == "ptr":
+        return "ptr %s elem=%d i=(%s)%s k=%s k2=%s" % (v["op"], v["es"], v["it"], v["iv"], v["k"], v["k2"])
     return "%s %s" % (v["f"], const_text(v["e"]))
 
 
@@ -175,6 +189,8 @@ def compile_run(cmd, src, exe, timeout=300):
     finally:
         if os.path.exists(exe):
             os.unlink(exe)
+    if r.returncode == 3 and r.stdout.endswith("NOMEM\n"):
+        raise Infra("cannot reserve the address range for the pointer family (mmap failed)")
     if r.returncode != 0:
         return False, "program rc=%s after: %s" % (r.returncode, r.stdout[-200:])
     return True, r.stdout
